@@ -46,6 +46,7 @@ var solvers = []Solver{
 type Portfolio struct {
 	quickMs   int
 	slowMs    int
+	prunedMs  int
 	seed      int
 	cacheDir  string
 	workDir   string
@@ -56,10 +57,11 @@ type Portfolio struct {
 }
 
 func newPortfolio(tier string, seed int, cacheDir string) *Portfolio {
-	p := &Portfolio{quickMs: 2000, slowMs: 10000, seed: seed, cacheDir: cacheDir, perSolver: map[string]float64{}, nQueries: map[string]int{}, wins: map[string]int{}}
+	p := &Portfolio{quickMs: 2000, slowMs: 10000, prunedMs: 1500, seed: seed, cacheDir: cacheDir, perSolver: map[string]float64{}, nQueries: map[string]int{}, wins: map[string]int{}}
 	if tier == "thorough" {
 		p.quickMs = 5000
 		p.slowMs = 60000
+		p.prunedMs = 4000
 	}
 	if cacheDir != "" {
 		os.MkdirAll(cacheDir, 0o755)
@@ -121,6 +123,42 @@ func (p *Portfolio) account(r SolveResult) {
 	p.perSolver[r.Solver] += r.Seconds
 	p.nQueries[r.Solver]++
 	p.mu.Unlock()
+}
+
+// solvePruned: one quick z3-new attempt on a pruned query (cached).
+func (p *Portfolio) solvePruned(query string) SolveResult {
+	key := ""
+	if p.cacheDir != "" {
+		h := sha256.Sum256([]byte(query))
+		key = filepath.Join(p.cacheDir, hex.EncodeToString(h[:])+".json")
+		if b, err := os.ReadFile(key); err == nil {
+			var r SolveResult
+			if json.Unmarshal(b, &r) == nil && r.Status == "unsat" {
+				r.Cached = true
+				return r
+			}
+		}
+	}
+	// z3 5.1 and z3 4.8 raced: they fail on different queries
+	ch := make(chan SolveResult, 2)
+	for _, sv := range []Solver{solvers[0], solvers[1]} {
+		go func(sv Solver) { ch <- runSolver(sv, query+"(check-sat)\n", p.prunedMs, p.seed) }(sv)
+	}
+	r := <-ch
+	p.account(r)
+	if r.Status != "unsat" {
+		r2 := <-ch
+		p.account(r2)
+		if r2.Status == "unsat" {
+			r = r2
+		}
+	}
+	if key != "" && r.Status == "unsat" {
+		if b, err := json.Marshal(r); err == nil {
+			os.WriteFile(key, b, 0o644)
+		}
+	}
+	return r
 }
 
 // solve decides one query: z3-new first, then the other two raced.
@@ -207,36 +245,67 @@ func (p *Portfolio) solve(query string, wantModel bool) SolveResult {
 
 // buildQuery assembles the SMT text of one obligation.
 func buildQuery(prelude string, fv *FV, o *Obligation) string {
-	var b strings.Builder
-	b.WriteString(prelude)
-	var lines []string
+	qs := buildQueries(prelude, fv, o, nil)
+	return qs[len(qs)-1]
+}
+
+// buildQueries returns the query variants of an obligation: relevance-pruned ones
+// (by depth) first, the full query last.
+func buildQueries(prelude string, fv *FV, o *Obligation, depths []int) []string {
+	var lines, usingLines []string
+	use := map[string]bool{}
+	for _, u := range o.Using {
+		use[u] = true
+	}
 	for i, l := range fv.script[:o.Prefix] {
 		// lines of a closed side exploration are irrelevant to later obligations
 		if r := fv.scriptRegion[i]; r != 0 && r != o.Region {
 			continue
 		}
 		lines = append(lines, l)
-		b.WriteString(l)
-		b.WriteByte('\n')
+		// "@using": keep code semantics and the named clauses, drop other contract clauses that are quantified
+		if len(use) > 0 {
+			og := fv.scriptOrigin[i]
+			if og == "" || use[og] || !strings.Contains(l, "(forall ") && !strings.Contains(l, "(exists ") {
+				usingLines = append(usingLines, l)
+			}
+		}
 	}
 	goal := o.Goal
+	var decls, extra []string
 	if o.Expect == "unsat" && !noInstantiate {
-		decls, extra, ng := augment(lines, o.Guard, o.Goal, fv.eng.intFuncs)
-		for _, d := range decls {
-			b.WriteString(d)
-			b.WriteByte('\n')
-		}
-		for _, e := range extra {
-			b.WriteString(e)
-			b.WriteByte('\n')
-		}
-		goal = ng
+		decls, extra, goal = augment(lines, o.Guard, o.Goal, fv.eng.intFuncs)
 	}
-	b.WriteString(sx("assert", o.Guard))
-	b.WriteByte('\n')
-	b.WriteString(sx("assert", not(goal)))
-	b.WriteByte('\n')
-	return b.String()
+	// skolem declarations first, then the script, then the instances (which are ordinary hypotheses)
+	all := append(append(append([]string{}, decls...), lines...), extra...)
+	assemble := func(ls []string) string {
+		var b strings.Builder
+		b.WriteString(prelude)
+		for _, l := range ls {
+			b.WriteString(l)
+			b.WriteByte('\n')
+		}
+		b.WriteString(sx("assert", o.Guard))
+		b.WriteByte('\n')
+		b.WriteString(sx("assert", not(goal)))
+		b.WriteByte('\n')
+		return b.String()
+	}
+	var out []string
+	if o.Expect == "unsat" && len(use) > 0 {
+		d2, e2, g2 := augment(usingLines, o.Guard, o.Goal, fv.eng.intFuncs)
+		save := goal
+		goal = g2
+		out = append(out, assemble(append(append(append([]string{}, d2...), usingLines...), e2...)))
+		goal = save
+	}
+	if o.Expect == "unsat" {
+		for _, d := range depths {
+			out = append(out, assemble(prune(all, nil, o.Guard, goal, d)))
+		}
+	}
+	out = append(out, assemble(all))
+	return out
 }
 
 var noInstantiate = false
@@ -249,7 +318,24 @@ func solveAll(p *Portfolio, jobs []*job, workers int) {
 		go func() {
 			defer wg.Done()
 			for j := range ch {
+				var tried []string
+				done := false
+				for _, pq := range j.pruned {
+					pr := p.solvePruned(pq)
+					tried = append(tried, fmt.Sprintf("pruned:%s:%s:%.2fs", pr.Solver, pr.Status, pr.Seconds))
+					if pr.Status == "unsat" {
+						pr.Tried = tried
+						pr.Detail = "proved from a relevance-pruned subset of the hypotheses"
+						j.o.Result = &pr
+						done = true
+						break
+					}
+				}
+				if done {
+					continue
+				}
 				r := p.solve(j.query, j.o.Expect == "unsat")
+				r.Tried = append(tried, r.Tried...)
 				j.o.Result = &r
 			}
 		}()
@@ -262,6 +348,7 @@ func solveAll(p *Portfolio, jobs []*job, workers int) {
 }
 
 type job struct {
-	o     *Obligation
-	query string
+	o      *Obligation
+	query  string   // full query
+	pruned []string // relevance-pruned variants, tried first (only "unsat" counts)
 }
